@@ -174,14 +174,14 @@ def rtzLoop64 : Nat → Nat → Nat → Nat × Nat
 
 /-- loop and the final single-digit step, 32 bits; a non-zero `u32` has at most 9 trailing zeros -/
 def rtz32From (n s : Nat) : Nat × Nat :=
-  let (n, s) := rtzLoop32 16 n s
-  let quo := rotr32 (u32 (n * modInv5U32)) 1
-  if quo ≤ (2 ^ 32 - 1) / 10 then (quo, s ||| 1) else (n, s)
+  let p := rtzLoop32 16 n s
+  let quo := rotr32 (u32 (p.1 * modInv5U32)) 1
+  if quo ≤ (2 ^ 32 - 1) / 10 then (quo, p.2 ||| 1) else (p.1, p.2)
 
 def rtz64From (n s : Nat) : Nat × Nat :=
-  let (n, s) := rtzLoop64 16 n s
-  let quo := rotr64 (u64 (n * modInv5U64)) 1
-  if quo ≤ (2 ^ 64 - 1) / 10 then (quo, s ||| 1) else (n, s)
+  let p := rtzLoop64 16 n s
+  let quo := rotr64 (u64 (p.1 * modInv5U64)) 1
+  if quo ≤ (2 ^ 64 - 1) / 10 then (quo, p.2 ||| 1) else (p.1, p.2)
 
 /-- `remove_trailing_zeros` -/
 def removeTrailingZeros (t : FTy) (mantissa : Nat) : Nat × Nat :=
@@ -198,8 +198,8 @@ def removeTrailingZeros (t : FTy) (mantissa : Nat) : Nat × Nat :=
 
 /-- `process_trailing_zeros`: policy "remove" for both types -/
 def processTrailingZeros (t : FTy) (mantissa : Nat) (exponent : Int) : Nat × Int :=
-  let (m, s) := removeTrailingZeros t mantissa
-  (m, i32 (exponent + s))
+  let p := removeTrailingZeros t mantissa
+  (p.1, i32 (exponent + p.2))
 
 /-! ## cache access -/
 /-- `F::dragonbox_power(exponent)`: `(hi, lo)`; `lo = 0` for f32 whose power is a single `u64` -/
